@@ -438,6 +438,12 @@ def walkStep (ppOf : Int → Nat → Nat) (api : Walk.Api) (acc : Walk.W × List
       (r.1, obs ++ [s!"s={showRows got}/{if r.2 then "T" else "F"}"], false)
   | ['o'] => some (w, obs ++ [walkObs w], false)
   | ['a'] => let r := Walk.await ppOf w; some (r.1, obs ++ [s!"a{r.2}"], false)
+  | ['m'] =>
+    -- the caller overwrites (flips every byte of) the slice PageState() returned: PageState() hands out the Iter's own
+    -- slice, so a later PageState() of the SAME page shows the caller's bytes; nothing else of the driver changes — in
+    -- particular not the next-page query's copy (`newQry.pageState = copyBytes(…)`), i.e. not the requests
+    let flipped := w.it.cur.pagingState.map (fun b => b ^^^ 0xff)
+    some ({ w with it := { w.it with cur := { w.it.cur with pagingState := flipped } } }, obs ++ ["m"], false)
   | ['x'] => some (Walk.stepX ppOf w (.cancel 1), obs ++ ["x"], false)   -- the caller cancels the query's context (op walkc only)
   | ['d'] =>
     let r := Walk.scanK ppOf api (drainN w.it) w
